@@ -24,6 +24,7 @@ def features(case, run, val):
 
 def case_gen(rng, k):
     if k % 12 == 7: return gen.gen_detour_case(rng)
+    if k % 14 == 9: return gen.gen_substep_forecast_case(rng)
     if k % 5 == 4: return gen.gen_parallel_case(rng, clean=False)
     if k % 5 == 2: return gen.gen_nested_case(rng)
     if k % 10 == 3:
